@@ -133,9 +133,10 @@ from neurodiffeq.generators import BaseGenerator as _BaseGenerator
 class SpyGen(_BaseGenerator):
     """spy leaf: the k-th draw returns n_points copies of (base + k + d/16) in dimension d"""
 
-    def __init__(self, world, train, n_points, n_dims):
+    def __init__(self, world, train, n_points, n_dims, vary=False):
         super().__init__()
         self.world, self.train, self.n_points, self.n_dims = world, train, n_points, n_dims
+        self.vary = vary           # batches of different sizes (as a FilterGenerator would produce)
         self.size = n_points
         self.count = 0
         # attributes `load()` reads from the saved training generator to rebuild the solver
@@ -146,12 +147,13 @@ class SpyGen(_BaseGenerator):
         self.count += 1
         self.world.events.append(f'D{1 if self.train else 0}:{idx}')
         base = (TRAIN_BASE if self.train else VALID_BASE) + idx
-        cols = [torch.full((self.n_points,), float(base) + d / 16.0, requires_grad=True) for d in range(self.n_dims)]
+        n = self.n_points + ((idx * 2) % 5 if self.vary else 0)
+        cols = [torch.full((n,), float(base) + d / 16.0, requires_grad=True) for d in range(self.n_dims)]
         return cols[0] if self.n_dims == 1 else tuple(cols)
 
 
-def make_spy_gen(world, train, n_points, n_dims):
-    return SpyGen(world, train, n_points, n_dims)
+def make_spy_gen(world, train, n_points, n_dims, vary=False):
+    return SpyGen(world, train, n_points, n_dims, vary)
 
 
 def decode_idx(coord):
@@ -163,7 +165,7 @@ class Run:
     """one scripted solver; `kind` in {'1d','2d','bundle','spherical','generic'}"""
 
     def __init__(self, theta0, opt, n_train, n_valid, n_metrics, kind='1d', n_funcs=1, shared=False, n_points=3,
-                 eq_param_index=(), n_theta=0):
+                 eq_param_index=(), n_theta=0, vary_points=False):
         from neurodiffeq import solvers as S
         from neurodiffeq.conditions import NoCondition
         self.world = World()
@@ -212,8 +214,8 @@ class Run:
         params = list({id(p): p for n in self.nets for p in n.parameters()}.values())
         self.make_opt = lambda k: (PlainOpt if k == 'plain' else ClosureOpt)(params, w)
         common = dict(conditions=[NoCondition() for _ in range(n_funcs)], nets=self.nets,
-                      train_generator=make_spy_gen(w, True, n_points, n_dims),
-                      valid_generator=make_spy_gen(w, False, n_points, n_dims),
+                      train_generator=make_spy_gen(w, True, n_points, n_dims, vary_points),
+                      valid_generator=make_spy_gen(w, False, n_points, n_dims, vary_points),
                       optimizer=self.make_opt(opt), loss_fn=make_loss(0), n_batches_train=n_train,
                       n_batches_valid=n_valid, metrics=metrics)
         with warnings.catch_warnings():
